@@ -27,6 +27,12 @@ type c26Case struct {
 	Merge      bool    `json:"merge"`      // write two files and merge them
 	Comp       string  `json:"comp"`
 	Big        bool    `json:"big,omitempty"` // volume phase: more probes
+	// Fields: the same text is stored under this many top-level fields, so the
+	// field:token set is that many times the token set (0/1 = one field)
+	Fields int `json:"fields,omitempty"`
+	// MergeFPR: the merge is run by a second engine over the same stores whose
+	// configured rate is this one (0 = the writing engine merges)
+	MergeFPR float64 `json:"merge_fpr,omitempty"`
 }
 
 func genC26() *rapid.Generator[c26Case] {
@@ -51,6 +57,10 @@ func genC26() *rapid.Generator[c26Case] {
 		c.Partitions = pick(t, "parts", []int{1, 3, 2})
 		c.Merge = chance(t, "merge", 35)
 		c.Comp = pick(t, "comp", []string{"snappy", "none"})
+		c.Fields = pick(t, "fields", []int{1, 1, 2, 5, 8})
+		if c.Merge && chance(t, "mergefpr", 60) {
+			c.MergeFPR = pick(t, "mfpr", []float64{0.001, 0.0001, 0.01, 1e-6, 0.1})
+		}
 		return c
 	})
 }
@@ -130,7 +140,11 @@ func runC26(c c26Case) *Violation {
 	}
 	tok := 0
 	rowID := 0
+	firstFileRows := 0
 	for fi := 0; fi < files; fi++ {
+		if fi == 1 {
+			firstFileRows = rowID
+		}
 		var rows []map[string]any
 		share := c.N / files
 		if fi == files-1 {
@@ -146,7 +160,11 @@ func runC26(c c26Case) *Violation {
 				fmt.Fprintf(&sb, "w%d ", tok)
 				tok++
 			}
-			rows = append(rows, map[string]any{"id": rowID, "t": sb.String()})
+			row := map[string]any{"id": rowID, "t": sb.String()}
+			for f := 1; f < c.Fields; f++ {
+				row[fmt.Sprintf("t%d", f)] = row["t"]
+			}
+			rows = append(rows, row)
 			rowID++
 			left -= k
 		}
@@ -161,11 +179,34 @@ func runC26(c c26Case) *Violation {
 			return violf("ack: %v", err)
 		}
 	}
+	split := rowID // ids below split were written by... (set below for two-file cases)
+	_ = split
 	if c.Merge {
-		if _, err := eng.Merge(ctx); err != nil {
+		meng := eng
+		if c.MergeFPR > 0 {
+			sctx, cancel := context.WithTimeout(ctx, 30*time.Second)
+			eng.Stop(sctx)
+			cancel()
+			cfg2 := cfg
+			cfg2.BloomFalsePositiveRate = c.MergeFPR
+			meng, err = bs.NewBloomSearchEngine(cfg2, ms, ds)
+			if err != nil {
+				return violf("config rejected: %v", err)
+			}
+		}
+		if _, err := meng.Merge(ctx); err != nil {
 			return violf("merge failed on healthy stores: %v", err)
 		}
 	}
+	// the rate a filter has to meet: the configured rate of the engine that
+	// built it. Block and file filters of a merge output that combined blocks
+	// are rebuilt by the merging engine; blocks copied verbatim keep the filter
+	// (and the recorded rate) of the engine that wrote them.
+	mergeRate := c.FPR
+	if c.Merge && c.MergeFPR > 0 {
+		mergeRate = c.MergeFPR
+	}
+	rateNow := c.FPR
 	worldFiles, err := ReadWorld(ds, ms)
 	if err != nil {
 		return violf("world unreadable: %v", err)
@@ -187,7 +228,7 @@ func runC26(c c26Case) *Violation {
 			return violf("%s-level %s filter missing in an engine-written file", level, which)
 		}
 		n := len(entries)
-		ref := buildFilter(entries, c.FPR, 0)
+		ref := buildFilter(entries, rateNow, 0)
 		for e := range entries {
 			if !f.TestString(e) {
 				return violf("%s-level %s filter does not contain entry %q", level, which, e)
@@ -195,14 +236,14 @@ func runC26(c c26Case) *Violation {
 		}
 		theoLib, theoRef := theoreticalFPR(f, n), theoreticalFPR(ref, n)
 		if theoLib > theoRef*1.5+1e-15 {
-			return violf("%s-level %s filter holding %d distinct entries has parameters (m=%d bits, k=%d) giving a theoretical false-positive rate %.3g; a filter sized for %d entries at the configured %.3g has m=%d k=%d and %.3g", level, which, n, f.Cap(), f.K(), theoLib, n, c.FPR, ref.Cap(), ref.K(), theoRef)
+			return violf("%s-level %s filter holding %d distinct entries has parameters (m=%d bits, k=%d) giving a theoretical false-positive rate %.3g; a filter sized for %d entries at the configured %.3g has m=%d k=%d and %.3g", level, which, n, f.Cap(), f.K(), theoLib, n, rateNow, ref.Cap(), ref.K(), theoRef)
 		}
 		got := measureFPR(f, probes, prefix)
 		want := measureFPR(ref, probes, prefix)
-		base := math.Max(want, c.FPR)
+		base := math.Max(want, rateNow)
 		bound := base*1.1 + 7*math.Sqrt(math.Max(base, 1/float64(probes))*(1-math.Min(base, 0.999))/float64(probes)) + 2/float64(probes)
 		if got > bound {
-			return violf("%s-level %s filter holding %d distinct entries: measured false-positive rate %.4g over %d absent probes; a reference filter sized for the true count at the configured %.4g measures %.4g (bound %.4g; library m=%d k=%d, reference m=%d k=%d)", level, which, n, got, probes, c.FPR, want, bound, f.Cap(), f.K(), ref.Cap(), ref.K())
+			return violf("%s-level %s filter holding %d distinct entries: measured false-positive rate %.4g over %d absent probes; a reference filter sized for the true count at the configured %.4g measures %.4g (bound %.4g; library m=%d k=%d, reference m=%d k=%d)", level, which, n, got, probes, rateNow, want, bound, f.Cap(), f.K(), ref.Cap(), ref.K())
 		}
 		return nil
 	}
@@ -213,12 +254,30 @@ func runC26(c c26Case) *Violation {
 			return violf("ReadFileMetadata: %v", err)
 		}
 		fileSets := newEntrySets()
+		anyCombined := false
 		for bi, b := range fi.Blocks {
 			bf, err := bs.ReadDataBlockBloomFilters(bytes.NewReader(raw), b.Meta)
 			if err != nil {
 				return violf("ReadDataBlockBloomFilters: %v", err)
 			}
 			es := newEntrySets()
+			// a block holding rows of both written files was combined by the merge
+			lo, hi := false, false
+			for _, id := range b.IDs {
+				if id < firstFileRows {
+					lo = true
+				} else {
+					hi = true
+				}
+			}
+			rateNow = c.FPR
+			if c.Merge && lo && hi {
+				rateNow = mergeRate
+				anyCombined = true
+			}
+			if b.Meta.BloomFalsePositiveRate != rateNow {
+				return violf("block[%d] records BloomFalsePositiveRate %g, the engine that built its filters was configured with %g", bi, b.Meta.BloomFalsePositiveRate, rateNow)
+			}
 			for _, r := range b.Rows {
 				em, err := emissionsOf(r)
 				if err != nil {
@@ -238,6 +297,15 @@ func runC26(c c26Case) *Violation {
 			if v := check(lvl, "field", bf.FieldBloomFilter, es.fields, ""); v != nil {
 				return v
 			}
+		}
+		// file-level filters: built by whichever engine wrote this file; a file
+		// holding a combined block was written by the merging engine
+		rateNow = lm.BloomFalsePositiveRate
+		if rateNow != c.FPR && rateNow != mergeRate {
+			return violf("file records BloomFalsePositiveRate %g; the engines involved were configured with %g and %g", rateNow, c.FPR, mergeRate)
+		}
+		if anyCombined && rateNow != mergeRate {
+			return violf("merge output records BloomFalsePositiveRate %g, the merging engine was configured with %g", rateNow, mergeRate)
 		}
 		if v := check("file", "token", lm.BloomFilters.TokenBloomFilter, fileSets.tokens, ""); v != nil {
 			return v
@@ -266,7 +334,7 @@ func runC26(c c26Case) *Violation {
 }
 
 func TestC26(t *testing.T) {
-	Ev.Rule = "case = n distinct tokens (1 .. 20 000 quick / 300 000 thorough; 1-200 tokens per row), configured rate from {0.9 .. 1e-4}, 1-3 blocks per file, optionally two files merged; plus a volume phase with 250 000 .. 1 000 000 (thorough 3 000 000) distinct entries in one or two blocks at rates 1e-2 .. 1e-12 and 200 000 probes. Oracle (differential): for every file-level and block-level filter of the written files the harness builds a reference filter for the TRUE distinct entries (recomputed with its own walker/tokenizer) at the configured rate; (a) the library filter's parameters must not give a theoretical rate worse than 1.5x the reference's, (b) its measured rate over 20 000 (60 000) absent probes must be <= 1.1*max(reference measured rate, p) + 7 sigma, (c) it contains every entry. Non-trivial: n >= 1000 and p <= 0.1; distinct by case."
+	Ev.Rule = "case = n distinct tokens (1 .. 20 000 quick / 300 000 thorough; 1-200 tokens per row), configured rate from {0.9 .. 1e-4}, 1-3 blocks per file, the text stored under 1-8 fields (field:token sets up to 8x the token sets), optionally two files merged — by the writing engine or by a second engine configured with a different rate (a combined block and the output's file-level filters must then meet the merging engine's rate, and record it); plus a volume phase with 250 000 .. 1 000 000 (thorough 3 000 000) distinct entries in one or two blocks at rates 1e-2 .. 1e-12 and 200 000 probes. Oracle (differential): for every file-level and block-level filter of the written files the harness builds a reference filter for the TRUE distinct entries (recomputed with its own walker/tokenizer) at the configured rate; (a) the library filter's parameters must not give a theoretical rate worse than 1.5x the reference's, (b) its measured rate over 20 000 (60 000) absent probes must be <= 1.1*max(reference measured rate, p) + 7 sigma, (c) it contains every entry. Non-trivial: n >= 1000 and p <= 0.1; distinct by case."
 	Ev.Assumptions = []string{"statistical: 7-sigma tolerance per filter against a reference filter measured on the same probes", "absent probes are strings that were never inserted"}
 	Ev.Level = "exploration"
 	runChecks(t, "fpr", 60, 700, genC26(), runC26)
